@@ -6,10 +6,11 @@
    paint_ctx  the sequence of draw calls / q-Q / group / clip / cm events of draw_stacking_context
    owned c    the box ids a context structure owns (children, child contexts, floats; not the two alias lists)
    ids t      the box ids of the tree in tree order *)
-From Coq Require Import ZArith List Bool Permutation Sorted.
+From Coq Require Import ZArith QArith Qminmax List Bool Permutation Sorted.
 Require Import WV.model.C17Stacking WV.model.C17Spec.
 Require Import WV.proofs.C17_sort WV.proofs.C17_dispatch WV.proofs.C17_partition WV.proofs.C17_collect
   WV.proofs.C17_order WV.proofs.C17_brackets WV.proofs.C17_ties WV.proofs.C17_refuted.
+Require Import WV.model.C17Radius WV.proofs.C17_radius.
 Import ListNotations.
 Open Scope Z_scope.
 
@@ -137,3 +138,85 @@ Theorem C17_z_index_applied_to_non_positioned_refuted :
             wf_kids t = true.
 Proof. exact z_index_applied_to_non_positioned. Qed.
 Print Assumptions C17_z_index_applied_to_non_positioned_refuted.
+
+(* ================================================================================================
+   Rounded corners: Box.rounded_box(bt, br, bb, bl) (model/C17Radius.v) - the curves used for the inner edge of
+   borders, for background-clip: padding-box / content-box and for the overflow clip.  W x H is the border box,
+   R its eight outer radii, (bt, br, bb, bl) the distances of the inner rectangle from the border box.
+   ================================================================================================ *)
+Open Scope Q_scope.
+
+(* scaled radii never overlap: on each side of the result the two curves fit, and no radius is negative *)
+Theorem C17_scaled_radii_never_overlap W H R bt br bb bl :
+  0 <= W - bl - br -> 0 <= H - bt - bb ->
+  let o := rounded_box W H R bt br bb bl in
+  nonneg (rr o) /\ fits (rw o) (rh o) (rr o).
+Proof. exact (scaled_radii_never_overlap W H R bt br bb bl). Qed.
+Print Assumptions C17_scaled_radii_never_overlap.
+
+(* inner radius = outer radius - width of the adjacent side, floored at 0, per axis, each corner with ITS OWN two
+   sides (top-left: left/top, top-right: right/top, bottom-right: right/bottom, bottom-left: left/bottom), times
+   one common factor f <= 1 that is 1 when these radii fit the inner rectangle *)
+Theorem C17_inner_radius_is_outer_minus_own_sides W H R bt br bb bl :
+  let o := rounded_box W H R bt br bb bl in
+  let f := ratio (W - bl - br) (H - bt - bb) (inner_raw R bt br bb bl) in
+  dx o = bl /\ dy o = bt /\ rw o = W - bl - br /\ rh o = H - bt - bb /\
+  tlx (rr o) = Qmax 0 (tlx R - bl) * f /\ tly (rr o) = Qmax 0 (tly R - bt) * f /\
+  trx (rr o) = Qmax 0 (trx R - br) * f /\ try_ (rr o) = Qmax 0 (try_ R - bt) * f /\
+  brx (rr o) = Qmax 0 (brx R - br) * f /\ bry (rr o) = Qmax 0 (bry R - bb) * f /\
+  blx (rr o) = Qmax 0 (blx R - bl) * f /\ bly (rr o) = Qmax 0 (bly R - bb) * f /\
+  f <= 1 /\
+  (fits (W - bl - br) (H - bt - bb) (inner_raw R bt br bb bl) -> f == 1).
+Proof. exact (inner_radius_is_outer_minus_own_sides W H R bt br bb bl). Qed.
+Print Assumptions C17_inner_radius_is_outer_minus_own_sides.
+
+(* mirror symmetry: mirroring radii and side widths left <-> right (top <-> bottom) mirrors the result *)
+Theorem C17_rounded_box_mirror_h W H R bt br bb bl :
+  let o := rounded_box W H R bt br bb bl in
+  let o' := rounded_box W H (mirror_h R) bt bl bb br in
+  dx o' = br /\ dy o' = dy o /\ rw o' == rw o /\ rh o' = rh o /\ radii_eq (rr o') (mirror_h (rr o)).
+Proof. exact (rounded_box_mirror_h W H R bt br bb bl). Qed.
+Print Assumptions C17_rounded_box_mirror_h.
+
+Theorem C17_rounded_box_mirror_v W H R bt br bb bl :
+  let o := rounded_box W H R bt br bb bl in
+  let o' := rounded_box W H (mirror_v R) bb br bt bl in
+  dx o' = dx o /\ dy o' = bb /\ rw o' = rw o /\ rh o' == rh o /\ radii_eq (rr o') (mirror_v (rr o)).
+Proof. exact (rounded_box_mirror_v W H R bt br bb bl). Qed.
+Print Assumptions C17_rounded_box_mirror_v.
+
+(* the inner curve lies inside the outer curve when nothing is scaled: at every corner the inner ellipse has the
+   centre of the outer one and radii not larger (so it is inside, C17_concentric_ellipse_inside), or the corner
+   is square with its vertex beyond the extent of the outer curve on one axis *)
+Theorem C17_inner_curve_inside_outer W H R bt br bb bl :
+  0 <= bt -> 0 <= br -> 0 <= bb -> 0 <= bl ->
+  fits (W - bl - br) (H - bt - bb) (inner_raw R bt br bb bl) ->
+  let i := rr (rounded_box W H R bt br bb bl) in
+  radii_eq i (inner_raw R bt br bb bl) /\
+  (0 < tlx i -> 0 < tly i -> bl + tlx i == tlx R /\ bt + tly i == tly R /\ tlx i <= tlx R /\ tly i <= tly R) /\
+  (0 < trx i -> 0 < try_ i -> br + trx i == trx R /\ bt + try_ i == try_ R /\ trx i <= trx R /\ try_ i <= try_ R) /\
+  (0 < brx i -> 0 < bry i -> br + brx i == brx R /\ bb + bry i == bry R /\ brx i <= brx R /\ bry i <= bry R) /\
+  (0 < blx i -> 0 < bly i -> bl + blx i == blx R /\ bb + bly i == bly R /\ blx i <= blx R /\ bly i <= bly R) /\
+  (tlx i == 0 \/ tly i == 0 -> tlx R <= bl \/ tly R <= bt) /\
+  (trx i == 0 \/ try_ i == 0 -> trx R <= br \/ try_ R <= bt) /\
+  (brx i == 0 \/ bry i == 0 -> brx R <= br \/ bry R <= bb) /\
+  (blx i == 0 \/ bly i == 0 -> blx R <= bl \/ bly R <= bb).
+Proof. exact (inner_curve_inside_outer W H R bt br bb bl). Qed.
+Print Assumptions C17_inner_curve_inside_outer.
+
+Theorem C17_concentric_ellipse_inside rx ry Rx Ry x y :
+  0 < rx -> rx <= Rx -> 0 < ry -> ry <= Ry ->
+  x * x * (ry * ry) + y * y * (rx * rx) <= rx * rx * (ry * ry) ->
+  x * x * (Ry * Ry) + y * y * (Rx * Rx) <= Rx * Rx * (Ry * Ry).
+Proof. exact (concentric_inside rx ry Rx Ry x y). Qed.
+Print Assumptions C17_concentric_ellipse_inside.
+
+(* refuted (finding): when the outer radii overlap, the inner radii are taken from the unscaled radii and
+   rescaled separately: a point of the inner curve is outside the outer curve, and the radii are not the CSS ones *)
+Theorem C17_inner_curve_leaves_outer_when_radii_overlap_refuted :
+  exists W H R bt br bb bl px py,
+    on_tr_curve (rounded_box W H R bt br bb bl) px py = true /\
+    outside_tr_curve (rounded_border_box W H R) px py = true /\
+    radii_eqb (rr (rounded_box W H R bt br bb bl)) (css_inner_fit W H R bt br bb bl) = false.
+Proof. exact inner_curve_leaves_outer_when_radii_overlap. Qed.
+Print Assumptions C17_inner_curve_leaves_outer_when_radii_overlap_refuted.
